@@ -502,11 +502,41 @@ package engine
 //@ func (c *compiler) compileChange(achange) (change)
 //@   requires achange != nil && achange.Meta != nil && achange.Patch != nil
 //@   requires typing: forall i int {achange.Meta.Vars[i]} :: 0 <= i && i < len(achange.Meta.Vars) ==> achange.Meta.Vars[i] != nil && achange.Meta.Vars[i].Type != nil && forall j int {achange.Meta.Vars[i].Names[j]} :: 0 <= j && j < len(achange.Meta.Vars[i].Names) ==> achange.Meta.Vars[i].Names[j] != nil
-//@   assigns c.errors, elems(c.errors), metaErrors, allof("E.token_Pos"), allof("MH.Int.Int"), allof("MV.Int.Int")
+//@   assigns c.errors, elems(c.errors), metaErrors, allof("E.token_Pos"), allof("E.main_sourcePath"), allof("MH.Int.Int"), allof("MV.Int.Int"), allof("MH.Int.S_token_Position"), allof("MV.Int.S_token_Position")
 
+// Elision association (C04, C13): every '+' elision is associated with the nearest '-' elision at or
+// before it in patch position (line, then column); positions are only compared, never computed with.
 //@ func connectDots(fset, lhs, rhs, conns) (err)
-//@   trusted elision association by patch position (sorting and binary search through closures; summarised)
-//@   assigns elems(lhs), elems(rhs), allof("MH.Int.Int"), allof("MV.Int.Int")
+//@   requires conns != nil
+//@   assigns allof("E.main_sourcePath"), allof("E.token_Pos"), allof("MH.Int.S_token_Position"), allof("MV.Int.S_token_Position"), allof("MH.Int.Int"), allof("MV.Int.Int")
+//@   ensures [C04,C13] associated-with-an-elision-at-or-before-it: forall k int {has(conns, k)} :: has(conns, k) && !old(has(conns, k)) ==> posLE(posOfFn(getPosition, conns[k]), posOfFn(getPosition, k))
+//@   loop 0
+//@     invariant [C04,C13] associated-with-an-elision-at-or-before-it: forall k int {has(conns, k)} :: has(conns, k) && !old(has(conns, k)) ==> posLE(posOfFn(getPosition, conns[k]), posOfFn(getPosition, k))
+//@     invariant len(lhs) == old(len(lhs))
+
+// The memoising position lookup of connectDots: faithful to the FileSet.
+//@ func connectDots$1(pos) (p)
+//@   requires cache != nil
+//@   invariant forall k int {has(cache, k)} :: has(cache, k) ==> cache[k] == fsPosition(fset, k)
+//@   ensures [C04,C13] p == fsPosition(fset, pos)
+
+//@ func funcval:#getPosition(pos) (p)
+//@   ensures p == posOfFn(self, pos)
+//@   assigns allof("MH.Int.S_token_Position"), allof("MV.Int.S_token_Position")
+
+//@ func connectDots$2(i, j) (res)
+//@   requires 0 <= i && i < len(lhs) && 0 <= j && j < len(lhs) && getPosition != nil
+//@   assigns allof("MH.Int.S_token_Position"), allof("MV.Int.S_token_Position")
+
+//@ func connectDots$3(i, j) (res)
+//@   requires 0 <= i && i < len(rhs) && 0 <= j && j < len(rhs) && getPosition != nil
+//@   assigns allof("MH.Int.S_token_Position"), allof("MV.Int.S_token_Position")
+
+// The binary-search predicate: the '-' elision i is at or before the '+' elision in the patch.
+//@ func connectDots$4(i) (res)
+//@   requires 0 <= i && i < len(lhs) && getPosition != nil
+//@   assigns allof("MH.Int.S_token_Position"), allof("MV.Int.S_token_Position")
+//@   ensures [C04,C13] res == posLE(posOfFn(getPosition, lhs[i]), rpos)
 
 //@ func (c *matcherCompiler) compileFile(file) (m)
 //@   trusted compile-side summary
